@@ -117,6 +117,14 @@ def contains(node, target):
     return any(x is target for x in walk(node))
 
 
+def mutated_in_before(block, coll, node):
+    """is `coll` shrunk inside `block` before `node` (by line)?"""
+    for x in walk(block):
+        if x.get("k") == "MCall" and x is not node and x.get("l", 0) < node.get("l", 0) and x["name"] in ("remove", "pop", "clear", "truncate", "drain", "retain", "swap_remove") and sexp(strip(x["recv"])) == coll:
+            return True
+    return False
+
+
 def mutated_in(node, text):
     """is the collection named `text` grown/shrunk inside node?"""
     for x in walk(node):
@@ -256,6 +264,23 @@ class Guards:
             for x in walk(self.body):
                 if x.get("k") == "MCall" and x["name"] == "push" and sexp(strip(x["recv"])) == coll and x.get("l", 0) <= line:
                     return "%s received an unconditional push before" % coll
+        # `it.next().unwrap()` where `let mut it = coll.into_iter()` and an earlier `if coll.len() < K { return }` with
+        # K larger than the number of items taken from `it` before this one
+        m = re.match(r"^(\w+)\.next\(\)$", recv)
+        if m:
+            it = m.group(1)
+            src = None
+            for s_ in walk(self.body):
+                if s_.get("k") == "Let" and s_.get("init") is not None and sexp(s_["pat"]).replace("mut ", "") == it:
+                    mm = re.match(r"^(.*)\.(into_iter|iter|drain\(ops::RangeFull\{\}\))\(?\)?$", sexp(strip(s_["init"])))
+                    if mm:
+                        src = mm.group(1).lstrip("&")
+            if src:
+                taken = sum(1 for x in walk(self.body) if x.get("k") == "MCall" and x["name"] in ("next", "nth", "skip", "take", "by_ref", "find", "position", "last", "fold", "for_each", "collect", "map", "filter") and sexp(strip(x["recv"])) == it and (x.get("l", 0) < line))
+                sp = src.replace("(", "").replace(")", "")
+                g = self.after_diverging_if(n, lambda x: x == sp + ".is_empty" or (re.match(r"^%s\.len < (\d+)$" % re.escape(sp), x) is not None and int(x.rsplit(" ", 1)[1]) > taken) or (re.match(r"^%s\.len (==|<=) (\d+)$" % re.escape(sp), x) is not None and False))
+                if g and not (g == sp + ".is_empty" and taken > 0):
+                    return "item %d of an iterator over %s, after `if %s { return }`" % (taken + 1, src, g)
         # contains_key(k) then get_mut(k).unwrap()
         m = re.match(r"^(.*)\.(get|get_mut)\((.*)\)$", recv)
         if m:
@@ -278,6 +303,11 @@ class Guards:
             at = sexp(a)
             if at.endswith(".len()") or self.len_alias(at).endswith(".len()"):
                 return "a collection length + %s cannot overflow usize" % b["v"]
+        if op in ("+", "+=") and b.get("k") == "Lit" and b.get("v") == "1" and (self.F.ty(a) or "").lstrip("&mut ").strip() in ("usize", "u64"):
+            # one more step of a 64-bit step counter: 2^64 steps are not reachable
+            return "a 64-bit unsigned counter incremented by one"
+        if op == "+" and sexp(a).endswith(".len()") and sexp(b).endswith(".len()"):
+            return "the sum of two collection lengths cannot overflow usize"
         if op in ("-", "-=") and b.get("k") == "Lit" and b.get("v") == "1":
             at = sexp(a)
             base = at[:-len(".len()")] if at.endswith(".len()") else None
@@ -320,6 +350,15 @@ def guard_present(f, node, guard):
     return False
 
 
+HIGH_RISK_PREFIXES = ("parser::", "primitives::", "runtime_builtin::", "type_checker::", "utils::", "math::", "traits::")
+
+
+def is_str_ty(F, node):
+    a = node.get("a") if isinstance(node, dict) else None
+    t = (F.ty(a) or "") if isinstance(a, dict) else ""
+    return t.replace("&", "").replace("mut ", "").strip() in ("str", "std::string::String", "alloc::string::String")
+
+
 def load_table():
     if not os.path.exists(TABLE):
         return {}
@@ -353,6 +392,10 @@ def check(F, R, tier, dump=None):
                     mir_n += 1
     R.count("C.mir-panic-terminators", mir_n)
     table = load_table()
+    by_text = {}
+    for (fn_, kind_, text_), ents_ in table.items():
+        for e_ in ents_:
+            by_text.setdefault((kind_, text_), []).append(dict(e_, fn=fn_))
     used = {}
     todo = []
     n_sites = n_guard = n_table = 0
@@ -382,6 +425,11 @@ def check(F, R, tier, dump=None):
                 for w in G.enclosing(node, "While"):
                     if sexp(strip(w["cond"])).replace(" ", "") == ("!" + coll + ".is_empty()").replace(" ", ""):
                         why = "remove(0) inside `while !%s.is_empty()`" % coll
+                for i_ in G.enclosing(node, "If"):
+                    c_ = sexp(strip(i_["cond"])).replace(" ", "").strip("()")
+                    cp_ = coll.replace(" ", "")
+                    if contains(i_["then"], node) and (c_ == "!" + cp_ + ".is_empty()" or re.fullmatch(re.escape(cp_) + r"\.len\(\)(==|>=)[1-9]\d*", c_) or re.fullmatch(re.escape(cp_) + r"\.len\(\)>\d+", c_)) and not mutated_in_before(i_["then"], coll, node):
+                        why = "remove(0) inside `if %s`" % c_
             text_n = re.sub(r"\s+", " ", text)[:140]
             if why:
                 n_guard += 1
@@ -391,6 +439,15 @@ def check(F, R, tier, dump=None):
             counts[key] = counts.get(key, 0) + 1
             ents = table.get(key, [])
             quota = sum(e.get("count", 1) for e in ents)
+            if counts[key] > quota:
+                # the same construct reviewed under another function (code moved into / out of a helper, a renamed
+                # function), or more often in this function than reviewed (a duplicated branch): the review of the
+                # construct itself carries over when it does not lean on a guard of its old surroundings
+                moved = [e for e in by_text.get((kind, text_n), []) if not e.get("requires")]
+                if moved:
+                    n_table += 1
+                    R.ob("C-TABLE", "%s|%s|%s#moved%d" % (p, kind, text_n, counts[key]), True, F.loc(f, node), "reviewed (in %s): %s" % (moved[0]["fn"].rsplit("::", 1)[-1], moved[0]["reason"]))
+                    continue
             if counts[key] <= quota:
                 used[key] = True
                 # a reviewed entry may name the guard it relies on: it must still be there
@@ -404,8 +461,15 @@ def check(F, R, tier, dump=None):
                 R.ob("C-TABLE", "%s|%s|%s#%d" % (p, kind, text_n, counts[key]), True, F.loc(f, node), "reviewed: " + ents[0]["reason"])
             else:
                 todo.append({"fn": p, "kind": kind, "text": text_n, "line": node.get("l"), "file": f.get("file")})
+                # an unreviewed construct is a candidate, not a proof.  It is reported as a violation where user text
+                # and user data are handled directly (parser, evaluation of expressions, builtin functions, error
+                # rendering) or when it is a panic!/todo!/byte-offset string slice anywhere; in the layers that work on
+                # compiled models (transformers, solvers, builder, pipes) indexing and unwrapping rest on structural
+                # invariants of those models that this rule cannot see, so the site stays undecided there
+                risky_place = p.startswith(HIGH_RISK_PREFIXES) or any(("<" + x) in p or (" " + x) in p for x in HIGH_RISK_PREFIXES)
+                risky_kind = kind in ("panic", "strslice") or (kind == "arith" and sub in ("neg",)) or (kind == "index" and ("ops::Range" in text_n and is_str_ty(F, node)))
                 R.ob("C-PANIC", "%s|%s|%s" % (p, kind, text_n), False, F.loc(f, node),
-                     "reachable construct that can panic (%s %s) `%s` is neither discharged by a recognised guard nor listed in the reviewed table" % (kind, sub, text_n))
+                     "reachable construct that can panic (%s %s) `%s` is neither discharged by a recognised guard nor listed in the reviewed table" % (kind, sub, text_n), undecided=not (risky_place or risky_kind))
     R.count("C.sites", n_sites)
     R.count("C.discharged-by-guard", n_guard)
     R.count("C.discharged-by-table", n_table)
@@ -456,11 +520,18 @@ def loops_and_recursion(F, R, fns, cg, reach):
                     R.ob("L", key, True, F.loc(f, n), "bounded: " + why)
                 else:
                     ent = LOOP_TABLE.get("_".join(key.split()))
+                    if ent is None:
+                        # the same loop under another function name (moved into a helper)
+                        tail = "_".join(key.split()).split("|", 1)[1]
+                        cands = [v for k_, v in LOOP_TABLE.items() if k_.split("|", 1)[-1] == tail]
+                        if len(cands) == 1:
+                            ent = cands[0]
                     spec = []
                     if isinstance(ent, dict):
                         spec = ent.get("progress", [])
                         ent = ent["why"]
-                    R.ob("L", key, ent is not None, F.loc(f, n), ("reviewed: " + ent) if ent else "loop without a recognised bound and not in the reviewed loop table")
+                    risky_place = p.startswith(HIGH_RISK_PREFIXES) or any(("<" + x) in p or (" " + x) in p for x in HIGH_RISK_PREFIXES)
+                    R.ob("L", key, ent is not None, F.loc(f, n), ("reviewed: " + ent) if ent else "loop without a recognised bound and not in the reviewed loop table", undecided=not risky_place)
                     for sp in spec:
                         kind, _, place = sp.partition(":")
                         if kind == "assign":
@@ -505,7 +576,11 @@ def loops_and_recursion(F, R, fns, cg, reach):
             R.ob("R-SCC", rep, rep in rec or any(x in rec for x in comp), "", "cycle between a function and its closures without a recursion entry")
         else:
             ent = SCC_TABLE.get(rep)
-            R.ob("R-SCC", rep, ent is not None, "", ("reviewed: " + ent) if ent else "mutually recursive group %s without a reviewed decreasing measure" % sorted(comp)[:6])
+            if ent is None:
+                for x in sorted(comp):
+                    ent = ent or SCC_TABLE.get(x) or REC_TABLE.get(x) or (structural_descent(F, F.fns[parent_fn(F, x)], x) if parent_fn(F, x) in F.fns and "body" in F.fns[parent_fn(F, x)] and x in cg.edges.get(x, ()) else None)
+            known_member = any(x in REC_TABLE or x in SCC_TABLE or x in rec for x in comp)
+            R.ob("R-SCC", rep, ent is not None, "", ("reviewed: " + ent) if ent else "mutually recursive group %s without a reviewed decreasing measure" % sorted(comp)[:6], undecided=known_member)
     R.table("mutually_recursive_groups", inv)
 
 
